@@ -48,14 +48,39 @@ def ofTbl (t : Tbl) : Json :=
 def ofRow (t : Row) : Json :=
   obj ((sortKeys t).map (fun kv => (kv.1, ofLbl kv.2)))
 
+/-- a descriptor column given as a bare string counts as one entry
+    (`check_descriptor_length`: `if isinstance(v, str): v = [v]`) -/
+def asColOrStr (j : Json) : R Col :=
+  match j with
+  | .str s => pure [.str s]
+  | _ => asList asLbl j
+
+def asTblN (j : Json) : R Tbl := do
+  if j.isNull then return []          -- `descriptors=None` is the empty dictionary
+  (← asArr j).mapM (fun kv => do
+    match ← asArr kv with
+    | [k, c] => do pure ((← asStr k), (← asColOrStr c))
+    | _ => throw "descriptor entry must be [key, column]")
+
 def asDS (j : Json) : R D := do
   let temporal ← fld j "temporal" >>= asBool
   let meas ← fld j "meas" >>= asList (asList (asList asRat))
-  let desc ← fld j "desc" >>= asRow
-  let obs ← fld j "obs" >>= asTbl
-  let chan ← fld j "chan" >>= asTbl
-  let time ← fld j "time" >>= asTbl
-  pure { temporal, meas, desc, obs, chan, time }
+  let dj ← fld j "desc"
+  let desc ← if dj.isNull then pure [] else asRow dj
+  let obs ← fld j "obs" >>= asTblN
+  let chan ← fld j "chan" >>= asTblN
+  let tj ← fld j "time"
+  let d0 : D := { temporal, meas, desc, obs, chan, time := [] }
+  -- `time_descriptors=None` on a TemporalDataset: 'time' = (0, 1, ..., n_time-1)
+  let time ← if tj.isNull then
+      pure (if temporal then [("time", (List.range d0.nTime).map (fun (t : Nat) => Lbl.num ((t : Int) : Rat)))] else [])
+    else asTblN tj
+  pure { d0 with time := time }
+
+/-- does the constructor accept the initial object?  misaligned descriptor lengths raise
+    `AttributeError`; a TemporalDataset with time descriptors but no `time` key raises `Warning` -/
+def accepted (d : D) : Bool :=
+  d.wfB && (!d.temporal || d.time.keys.contains "time")
 
 def ofDS (d : D) : Json :=
   obj [("temporal", Json.bool d.temporal),
@@ -93,6 +118,7 @@ def isIntCol (c : Col) : Bool := c.all (fun x => match x with | .num q => q.den 
 
 inductive Out where
   | inadm
+  | rejected
   | state (ws : List D)
   | query (j : Json)
 
@@ -129,7 +155,11 @@ def step (ws : List D) (o : Json) : R (Json × Out) := do
   match name with
   | "copy" => pure (args [], ofApply ws (.copy i))
   | "pick" => pure (args [], ofApply ws (.pick i))
-  | "merge" => pure (Json.null, ofApply ws .merge)
+  | "merge" =>
+    -- datasets of different classes are rejected by `merge_datasets` (ValueError)
+    if ws.any (fun x => x.temporal != d.temporal) || ws.any (fun x => x.temporal != (ws.headD d).temporal)
+    then pure (Json.null, .rejected)
+    else pure (Json.null, ofApply ws .merge)
   | "split_obs" =>
     match pickKey d.obs k with
     | some by_ => pure (args [("by", Json.str by_)],
@@ -257,6 +287,8 @@ def step (ws : List D) (o : Json) : R (Json × Out) := do
 
 def session (j : Json) : R Json := do
   let init ← fld j "init" >>= asDS
+  if !accepted init then
+    return obj [("init", Json.str "rejected"), ("steps", Json.arr #[])]
   let ops ← fld j "ops" >>= asArr
   let mut ws : List D := [init]
   let mut outs : Array Json := #[]
@@ -264,11 +296,12 @@ def session (j : Json) : R Json := do
     let (a, out) ← step ws o
     match out with
     | .inadm => outs := outs.push (obj [("args", a), ("out", Json.str "inadmissible")])
+    | .rejected => outs := outs.push (obj [("args", a), ("out", Json.str "rejected")])
     | .query q => outs := outs.push (obj [("args", a), ("out", obj [("query", q)])])
     | .state ws' =>
       ws := ws'
       outs := outs.push (obj [("args", a), ("out", obj [("state", ofList ofDS ws')])])
-  pure (Json.arr outs)
+  pure (obj [("init", ofDS init), ("steps", Json.arr outs)])
 
 def handle : Handler := fun op j =>
   match op with
